@@ -1,6 +1,6 @@
 (* C05 property theorems. Nothing but statements closed by [exact] and Print Assumptions. *)
-From VF Require Import Common.Base C05.Model C05.Spec C05.Aspects C05.Check
-  C05.Proofs_Remap C05.Proofs_Ring C05.Proofs_LSCQ C05.Proofs_Aspects C05.Proofs_Check.
+From VF Require Import Common.Base Common.Hist C05.Model C05.Spec C05.Aspects C05.Lin C05.Check
+  C05.Proofs_Remap C05.Proofs_Ring C05.Proofs_LSCQ C05.Proofs_Aspects C05.Proofs_Check C05.Proofs_Lin.
 Local Open Scope Z_scope.
 
 (* (1) cacheRemap16Byte permutes the slots of a ring, for the constants of util.go (and the code's
@@ -65,6 +65,34 @@ Theorem C05_lin_sound : forall h,
   (lin_nofresh_b h = true -> NoFresh h) /\ (lin_norepeat_b h = true <-> NoRepeat h) /\ (lin_noloss_b h = true <-> NoLoss h).
 Proof. intros h. split; [apply lin_nofresh_sound|split; [apply lin_norepeat_ok|apply lin_noloss_ok]]. Qed.
 
+(* (4) the title's word "linearizable".  A recorded history is turned into a history of Common/Hist.v by
+   [to_op] (Enqueue v -> call Enq v / result true, Dequeue -> v -> call Deq / result Some v, empty answer ->
+   call Deq / result None; stamps as they are).  For complete histories with unique enqueued values whose
+   stamps are non-negative with invocation <= response, the four conditions of the statement imply
+   linearizability - the definition [linearizable] of Common/Hist.v - with respect to the FIFO queue
+   specification started empty (the direction of Henzinger, Sezgin, Vafeiadis that a check needs) ... *)
+Theorem C05_aspects_lin : forall h, Stamped h -> UniqueValues h ->
+  NoFresh h /\ NoRepeat h /\ OrderKept h /\ EmptyJustified h ->
+  linearizable (list Z) (op Z) (out Z) fifo_step [] (map to_op h).
+Proof. exact aspects_linearizable. Qed.
+(* ... and conversely, when all stamps are different (one atomic counter), a linearizable history meets
+   the four conditions: on such histories the statement's conditions ARE linearizability *)
+Theorem C05_lin_aspects : forall h, Stamped h -> DistinctStamps h -> UniqueValues h ->
+  linearizable (list Z) (op Z) (out Z) fifo_step [] (map to_op h) ->
+  NoFresh h /\ NoRepeat h /\ OrderKept h /\ EmptyJustified h.
+Proof. exact linearizable_aspects. Qed.
+(* the generic verified checker of Common/Hist.v instantiated with the FIFO specification decides it;
+   on well-formed recordings the two deciders run on every tiny history return the same verdict *)
+Theorem C05_lin_check_ok : forall h,
+  fifo_lin_check h = true <-> linearizable (list Z) (op Z) (out Z) fifo_step [] (map to_op h).
+Proof. exact fifo_lin_check_correct. Qed.
+Theorem C05_checkers_agree : forall h,
+  stamped_b h = true -> distinct_b h = true -> unique_b h = true -> aspects_b h = fifo_lin_check h.
+Proof. exact checkers_agree. Qed.
+Theorem C05_wellformed_b_ok : forall h,
+  (stamped_b h = true <-> Stamped h) /\ (distinct_b h = true <-> DistinctStamps h).
+Proof. intros h. split; [apply stamped_b_ok|apply distinct_b_ok]. Qed.
+
 (* non-vacuity: a ring of 2 entries crossing two segment boundaries; a history meeting the conditions
    and histories violating each of them *)
 Example C05_nonvacuous :
@@ -90,6 +118,30 @@ Proof.
   - repeat split; vm_compute; reflexivity.
 Qed.
 
+(* non-vacuity of (4): a contended history that is linearizable / one that is not, decided both ways *)
+Example C05_lin_nonvacuous :
+  let ev a b w k := {| Aspects.inv := a; Aspects.resp := b; who := w; what := k |} in
+  let good := [ev 1 6 1 (HEnq 10); ev 2 5 2 (HEnq 11); ev 3 8 3 (HDeq 11); ev 4 7 4 HEmpty; ev 9 10 3 (HDeq 10); ev 11 12 4 HEmpty] in
+  let bad := [ev 1 2 1 (HEnq 10); ev 3 4 1 (HEnq 11); ev 5 8 2 (HDeq 11); ev 6 7 3 HEmpty] in
+  (Stamped good /\ DistinctStamps good /\ UniqueValues good /\ Aspects good /\
+   linearizable (list Z) (op Z) (out Z) fifo_step [] (map to_op good)) /\
+  (Stamped bad /\ DistinctStamps bad /\ UniqueValues bad /\ ~ Aspects bad /\
+   ~ linearizable (list Z) (op Z) (out Z) fifo_step [] (map to_op bad)).
+Proof.
+  cbv zeta. split.
+  - split; [apply stamped_b_ok; vm_compute; reflexivity|].
+    split; [apply distinct_b_ok; vm_compute; reflexivity|].
+    split; [apply unique_ok; vm_compute; reflexivity|].
+    split; [apply aspects_b_ok_all; vm_compute; reflexivity|].
+    apply fifo_lin_check_correct. vm_compute. reflexivity.
+  - split; [apply stamped_b_ok; vm_compute; reflexivity|].
+    split; [apply distinct_b_ok; vm_compute; reflexivity|].
+    split; [apply unique_ok; vm_compute; reflexivity|].
+    split.
+    + intros H. apply aspects_b_ok_all in H. vm_compute in H. discriminate H.
+    + intros H. apply fifo_lin_check_correct in H. vm_compute in H. discriminate H.
+Qed.
+
 Print Assumptions C05_remap_bij.
 Print Assumptions C05_remap_inj_all.
 Print Assumptions C05_seq.
@@ -103,3 +155,8 @@ Print Assumptions C05_lin_follows.
 Print Assumptions C05_drained_noloss.
 Print Assumptions C05_program_order.
 Print Assumptions C05_lin_sound.
+Print Assumptions C05_aspects_lin.
+Print Assumptions C05_lin_aspects.
+Print Assumptions C05_lin_check_ok.
+Print Assumptions C05_checkers_agree.
+Print Assumptions C05_wellformed_b_ok.
